@@ -46,6 +46,57 @@ func GenParseFamily(w *Writer, r *Rng, t Tier) error {
 				w.Eval(EvalCase{Fam: []string{"parse-min", "parse-parens", "parse-ws"}[si], Doc: doc, Env: env, Start: g.Start, E: e, Xpath: xp})
 			}
 		}
+		// names that spell an axis or a node type, as prefix, as local part, or both
+		{
+			cr := r.Fork()
+			reserved := []string{"self", "child", "text", "node", "parent", "comment", "attribute", "ancestor-or-self", "following"}
+			rcfg := DefaultDocCfg()
+			rcfg.NamePool = reserved
+			rdoc, err := w.NewDoc(fmt.Sprintf("d%dr", di), GenEvents(cr, rcfg))
+			if err != nil {
+				return err
+			}
+			env := Env{}
+			for _, u := range UriPool {
+				env.Ns = append(env.Ns, NsBind{Pick(cr, reserved), u})
+			}
+			env.Ns = append(env.Ns, NsBind{"p", Pick(cr, UriPool)})
+			for ci := 0; ci < 6; ci++ {
+				all := Step{Base: Root{}, Axis: "descendant-or-self", Test: Test{Kind: "node"}}
+				var t Test
+				switch cr.Intn(5) {
+				case 0, 1:
+					t = Test{Kind: "qname", A: Pick(cr, env.Ns).Prefix, B: Pick(cr, reserved)}
+				case 2:
+					t = Test{Kind: "nsany", A: Pick(cr, env.Ns).Prefix}
+				case 3:
+					t = Test{Kind: "localany", A: Pick(cr, reserved)}
+				default:
+					t = Test{Kind: "name", A: Pick(cr, reserved)}
+				}
+				e := Expr(Step{Base: all, Axis: Pick(cr, []string{"child", "child", "self", "descendant"}), Test: t})
+				if cr.Chance(1, 3) {
+					e = Call{Base: Ctx{}, Name: "count", Args: []Expr{e}}
+				}
+				w.Eval(EvalCase{Fam: "parse-reserved-names", Doc: rdoc, Env: env, Start: 0, E: e, Xpath: Render(e, &Style{R: cr, Abbrev: true, Whitespace: cr.Chance(1, 4)})})
+			}
+		}
+		// white space INSIDE string literals is significant: small expressions that differ only there,
+		// built in the same process as all the others
+		for ci := 0; ci < 4; ci++ {
+			cr := r.Fork()
+			lit := Pick(cr, []string{"a b", "a  b", "a\tb", "a   b", " ", "  ", "   ", "a b ", " a b", "a\nb", "a \t b"})
+			var e Expr = Lit{S: lit}
+			switch cr.Intn(4) {
+			case 0:
+				e = Call{Base: Ctx{}, Name: "string-length", Args: []Expr{Lit{S: lit}}}
+			case 1:
+				e = Call{Base: Ctx{}, Name: "concat", Args: []Expr{Lit{S: "["}, Lit{S: lit}, Lit{S: "]"}}}
+			case 2:
+				e = Bin{Op: "eq", L: Lit{S: lit}, R: Lit{S: "a b"}}
+			}
+			w.Eval(EvalCase{Fam: "parse-literal-ws", Doc: doc, Env: Env{}, Start: 0, E: e, Xpath: Render(e, &Style{R: cr, Whitespace: cr.Chance(1, 2)})})
+		}
 		// strings that are not XPath expressions must be rejected with an error
 		for ci := 0; ci < t.PerDoc/6; ci++ {
 			cr := r.Fork()
@@ -152,6 +203,9 @@ func GenFuzzFamily(w *Writer, r *Rng, t Tier) error {
 		if sel == 4 && i%32 != 4 {
 			sel = 0
 		}
+		if i%16 == 9 {
+			sel = 8
+		}
 		switch sel {
 		case 0, 1, 2:
 			kind = "expr-tokens"
@@ -198,6 +252,9 @@ func GenFuzzFamily(w *Writer, r *Rng, t Tier) error {
 				c, err := xsel.ReadJson(strings.NewReader(text))
 				return nilCheck(c == nil, err)
 			})
+		case 8:
+			kind = "unmarshal-target"
+			text, got = fuzzUnmarshalTarget(cr, dumps[0])
 		default:
 			kind = "html-bytes"
 			text = mutateBytes(cr, Pick(cr, []string{"<!DOCTYPE html><html><body><p>x</p><svg><rect/></svg></body></html>", "<!doctype html><table><tr><td>1", "<p>no doctype"}))
@@ -250,4 +307,68 @@ func mutateBytes(r *Rng, s string) string {
 		}
 	}
 	return string(b)
+}
+
+// arbitrary Go values as Unmarshal targets: nil, non-pointers, nil pointers at any depth,
+// unsupported kinds, nested combinations.  Unmarshal must return (an error or nil), never panic.
+func fuzzUnmarshalTarget(r *Rng, d *Dump) (desc string, outcome string) {
+	type inner struct {
+		A string `xsel:"."`
+	}
+	type T struct {
+		S  string            `xsel:"."`
+		P  **string          `xsel:"."`
+		L  []*inner          `xsel:"*"`
+		M  map[string]string `xsel:"."`
+		u  string            `xsel:"."`
+		N  *inner            `xsel:"."`
+		PL *[]string         `xsel:"*"`
+	}
+	_ = T{}.u
+	var nilT *T
+	var nilSl *[]string
+	var nilPP **T
+	var nilMap map[string]int
+	var nilIface interface{}
+	var fn func()
+	pp := &nilT
+	ppp := &pp
+	psl := &nilSl
+	ppsl := &psl
+	var sl []string
+	okT := &T{}
+	targets := []struct {
+		name string
+		v    interface{}
+	}{
+		{"nil", nil}, {"T{}", T{}}, {"(*T)(nil)", nilT}, {"&(*T)(nil)", pp}, {"&&(*T)(nil)", ppp}, {"(*[]string)(nil)", nilSl},
+		{"&(*[]string)(nil)", psl}, {"&&(*[]string)(nil)", ppsl}, {"(**T)(nil)", nilPP}, {"map", map[string]int{}}, {"nil map", nilMap},
+		{"&map", &map[string]int{}}, {"[2]int", [2]int{}}, {"&[2]int", &[2]int{}}, {"chan", make(chan int)}, {"func", fn}, {"&func", &fn},
+		{"int", 3}, {"&int", new(int)}, {"string", "s"}, {"&iface(nil)", &nilIface}, {"[]string", sl}, {"&[]string", &sl}, {"&T", okT},
+		{"[][]int", [][]int{}}, {"&[][]int", &[][]int{}}, {"&[]map", &[]map[string]int{}}, {"&[]chan", &[]chan int{}}, {"uintptr", uintptr(0)},
+		{"&struct{unexported}", &struct {
+			x int `xsel:"1"`
+		}{}},
+	}
+	t := Pick(r, targets)
+	var res xsel.Result
+	switch r.Intn(5) {
+	case 0:
+		res = xsel.NodeSet{}
+	case 1:
+		res = xsel.String("x")
+	case 2:
+		res = xsel.NodeSet{d.Cursors[0], d.Cursors[1%len(d.Cursors)]}
+	case 3:
+		res = nil
+	default:
+		res = xsel.NodeSet{d.Cursors[r.Intn(len(d.Cursors))]}
+	}
+	outcome = guard(func() string {
+		if err := xsel.Unmarshal(res, t.v); err != nil {
+			return "err"
+		}
+		return "ok"
+	})
+	return fmt.Sprintf("Unmarshal(%T, %s)", res, t.name), outcome
 }
